@@ -11,26 +11,29 @@ META = {
                  "parser with Python index semantics, _validate with the interpreter's recursion limit as an explicit "
                  "argument) + exact correspondence (outcome class, error line, canonical dump of the Schema) between the model "
                  "evaluated inside Coq and the Python module of the working tree on generated, mutated and random texts",
-    "text": "Proved in Coq of the model, for every text (any list of code points) and every frame budget rl: parse_string returns a "
-            "schema, or raises SchemaError with a line in 1..(newlines+1), or raises RecursionError and then only if rl < number of "
-            "declared groups + 2 (C41_total; IndexError from reading the token list past its end, KeyError, the TypeError branches and "
-            "loop-fuel exhaustion are excluded for all inputs). The unconditional claim 'no other exception escapes' is refuted "
-            "(C41_recursion_refuted: a valid 1001-group `use` chain raises RecursionError for every frame budget up to CPython's default "
-            "limit of 1000; C41_recursion_monotone: running out of frames in the cycle check is monotone in the budget) and the witness is "
-            "replayed on the implementation on every run. Soundness is proved in full (C41_sound: Ok s => WellFormed s, the declarative "
-            "conjunction of every parse-time and _validate rule; C41_validate_sound for arbitrary schema values), as is 'a schema breaking "
-            "a rule is rejected with a SchemaError' (C41_complete_rule_breaking_rejected, under the recursion proviso). NOT proved: that "
-            "every well-formed schema is accepted (only observed on generated valid schemas). The model is tied to doc/generate/mjcf_schema.py by exact comparison of "
-            "outcome class, error line and a dump of the whole Schema (names, types, arities, defaults as binary64 bit patterns, facets, "
-            "doc comments, line numbers), not by translation.",
+    "text": "Proved in Coq of the model of HEAD's code, for every text (any list of code points): parse_string returns a schema or raises "
+            "SchemaError with a line in 1..(newlines+1) and nothing else - IndexError from reading the token list past its end, KeyError, "
+            "the TypeError branches and non-termination of the traversal loops are excluded for all inputs (C41_total, unconditional). "
+            "Soundness in full: Ok s => WellFormed s (declarative conjunction of every parse-time and _validate rule, including acyclic "
+            "use graph and acyclic child graph through distinct non-alias elements) and all recorded lines lie in the text (C41_sound; "
+            "C41_validate_sound for arbitrary schema values); 'a schema breaking a rule is rejected with a SchemaError' "
+            "(C41_complete_rule_breaking_rejected). The explicitly recursive variant of the use traversals (code before ff3dbc583) is "
+            "kept as parse_string_rec with the frame budget rl as an argument: C41_recursive_variant_total (RecursionError only if "
+            "rl < #groups + 2), C41_recursion_refuted_recursive_variant (a valid 1001-group use chain raises RecursionError for every "
+            "rl <= 1000 - the defect that was repaired), monotonicity. NOT proved: that every well-formed schema is accepted (only observed "
+            "on generated valid schemas). The model is tied to doc/generate/mjcf_schema.py by exact comparison of outcome class, error "
+            "line and a dump of the whole Schema (names, types, arities, defaults as binary64 bit patterns, facets, doc comments, line "
+            "numbers), not by translation; a tree whose traversals recurse again is detected by the driver's recursion calibration, by "
+            "the 1200-group chain and by use chains under a lowered recursion limit.",
     "note": "Trusted: Coq kernel; the hand-written model Model/SchemaLang.v (CPython conventions listed in its header: Unicode "
             "\\d table, int() digit limit 4300, float() = nearest binary64, str.strip() white space, frame accounting of the "
             "recursion limit calibrated by the driver); the correspondence harness (harness/drivers/c41_parse.py under "
             "/venv/bin/python 3.12). Theorems are closed under the global context.",
     "assumptions": [
         "model is tied to the Python source by differential testing on the texts of this run, not by translation",
-        "recursion limit: only _check_group_cycle, _group_attrs/expanded_attrs and the SchemaError constructor raised by the "
-        "former are charged against the frame budget rl; the non-recursive helpers need < 8 frames",
+        "HEAD's traversal loops are modelled by fuel-bounded recursion; the theorems show the fuel is never exhausted",
+        "recursive variant only: _check_group_cycle, _group_attrs/expanded_attrs and the SchemaError constructor raised by the former "
+        "are charged against the frame budget rl; the non-recursive helpers need < 8 frames",
         "float()/int()/re/str.strip are CPython 3.12 built-ins, modelled by hand and compared on every run",
     ],
 }
@@ -41,7 +44,7 @@ KNOWN_FACETS = ['field', 'required', 'nodefault', 'pattern', 'reading', 'writing
 ELEMENT_FACETS = ['xml', 'alias', 'field']
 IMPORTS = "From Coq Require Import ZArith NArith.\nFrom MJV Require Import Model.SchemaLang."
 UNBOUNDED_RL = 100000
-PAD = '(TB ""%bt, 5%N, [0; 3; 7000049000091]%Z)'
+PAD = '(TB ""%bt, [0; 3; 7000049000091]%Z)'
 
 
 def lit(text):
@@ -270,6 +273,18 @@ class Gen:
             n = self.ident(avoid=eused)
             eused.add(n)
             enames.append(n)
+        efacets = []
+        for i in range(ne):
+            fs = []
+            for k in r.sample(ELEMENT_FACETS, r.choice([0, 0, 1, 2])):
+                if k == 'xml':
+                    fs.append((k, r.choice([('id', self.ident()), ('str', self.string())])))
+                elif k == 'alias':
+                    fs.append((k, ('id', r.choice(enames))))
+                else:
+                    fs.append((k, r.choice([None, self.facet_val()])))
+            efacets.append(fs)
+        has_alias = [any(k == 'alias' for k, _ in fs) for fs in efacets]
         for i in range(ne):
             members, names = [], []
             children = set()
@@ -282,7 +297,11 @@ class Gen:
                         members.append(('use', g))
                         names += ex
                 elif k < 0.35:
-                    c = r.choice(enames)
+                    # the child graph (without self loops and edges into alias elements) must be acyclic
+                    j = r.randrange(ne)
+                    if j < i and not has_alias[j]:
+                        j = i
+                    c = enames[j]
                     if c not in children:
                         children.add(c)
                         members.append(('child', c, r.choice('?!*R')))
@@ -297,14 +316,7 @@ class Gen:
                     names.append(an)
             if len(names) >= 2 and r.random() < 0.4:
                 members.insert(r.randrange(0, len(members) + 1), self.constraint(names, in_group=False))
-            fs = []
-            for k in r.sample(ELEMENT_FACETS, r.choice([0, 0, 1, 2])):
-                if k == 'xml':
-                    fs.append((k, r.choice([('id', self.ident()), ('str', self.string())])))
-                elif k == 'alias':
-                    fs.append((k, ('id', r.choice(enames))))
-                else:
-                    fs.append((k, r.choice([None, self.facet_val()])))
+            fs = efacets[i]
             elements.append({'name': enames[i], 'spec': self.ident() if r.random() < 0.5 else None, 'facets': fs,
                              'members': members})
         # make sure every referenced namespace is declared by some id attribute
@@ -619,6 +631,19 @@ def mutators():
         e['members'] = [m for m in e['members'] if not (m[0] == 'child' and m[1] == t['name'])]
         for _ in range(2):
             e['members'].insert(rng.randrange(len(e['members']) + 1), ('child', t['name'], rng.choice('?!*R')))
+
+    @reg('child_cycle')
+    def _(sch, rng):
+        n = rng.randrange(2, 5)
+        base = len([1 for k, d in sch['decls'] if k == 'element'])
+        names = ['zz_el%d' % (base + i) for i in range(n)]
+        for i in range(n):
+            ms = [('child', names[(i + 1) % n], rng.choice('?!*R'))]
+            if rng.random() < 0.5:
+                ms.insert(rng.randrange(2), ('child', names[i], 'R'))          # self loop: allowed
+            if rng.random() < 0.3:
+                ms.insert(rng.randrange(len(ms) + 1), ('attr', mk_attr('zcc%d' % i, 'int')))
+            add_element(sch, rng, members=ms)
 
     @reg('duplicate_attr_direct')
     def _(sch, rng):
@@ -989,6 +1014,30 @@ def wellformed(s, nlines):
                         bad.append('element constraint names its attributes')
                     if m['kind'] == 'requires' and [len(b) for b in m['bundles']] != [1, 1]:
                         bad.append('requires takes two attributes')
+    # child graph without self loops and edges into alias elements: acyclic
+    def cedges(e):
+        return [m['name'] for m in e['members'] if m['k'] == 'child' and m['name'] != e['name'] and m['name'] in E
+                and 'alias' not in dict(E[m['name']]['facets'])]
+    ccol = {}
+    ccyc = False
+    for root in E:
+        if ccol.get(root, 0) or ccyc:
+            continue
+        ccol[root] = 1
+        work = [(root, iter(cedges(E[root])))]
+        while work and not ccyc:
+            node, it = work[-1]
+            nxt = next(it, None)
+            if nxt is None:
+                ccol[node] = 2
+                work.pop()
+            elif ccol.get(nxt, 0) == 1:
+                ccyc = True
+            elif ccol.get(nxt, 0) == 0:
+                ccol[nxt] = 1
+                work.append((nxt, iter(cedges(E[nxt]))))
+    if ccyc:
+        bad.append('acyclic child graph')
     for c in conts:
         for m in c['members']:
             if m['k'] == 'con' and len(m['bundles']) < 2:
@@ -1191,6 +1240,13 @@ FIXED = [
     ('element e { a : int a : int }', 'reject'), ('element e {\n a : int\n a : int }', 'reject'),
     ('element e {\n use g\n a : int\n}\ngroup g {\n a : int\n}', 'reject'),
     ('group g {\n a : int\n}\nelement e {\n a : int\n use g\n}', 'reject'),
+    # child cycles: self loops and edges into alias elements are not followed
+    ('element a { child b ? }\nelement b { child a ? }', 'reject'), ('element a { child a R }', 'accept'),
+    ('element a { child b ? }\nelement b (alias=a) { child a ? }', 'accept'),
+    ('element a { child b ? }\nelement b { child a ? }\nelement c (alias=a) { child a ? }', 'reject'),
+    ('element a (alias=b) { child b ? }\nelement b { child a ? }', 'accept'),
+    ('element a { child b ? child c ? }\nelement b { child c ? }\nelement c { child c R }', 'accept'),
+    ('element a {\n child b ?\n}\nelement b {\n child c ?\n child a *\n}\nelement c {\n child b ?\n}', 'reject'),
     # group and element tables are separate; keywords as names
     ('group x { a : int }\nelement x { use x }\nenum x { x = x }', 'accept'), ('group group { group : int }\ngroup variant variant { variant : int }', 'accept'),
     ('group g { a : int }\ngroup g { b : int }', 'reject'), ('enum g { a = 1 }\nenum g { b = 1 }', 'reject'),
@@ -1338,8 +1394,11 @@ def run(ctx):
         return
     offset, default_limit, outs = res
     t_impl = time.time()
-    unbounded = offset < 0        # the implementation no longer recurses once per use edge
-    default_rl = UNBOUNDED_RL if unbounded else default_limit - offset
+    # HEAD's traversals are iterative: the calibration (longest use chain accepted under a lowered recursion limit) then finds
+    # no limit (offset < 0) and the driver leaves the limit alone.  A tree whose traversals recurse again gets its limit lowered
+    # for the "limit:*" families and disagrees with the model there, besides failing the 1200-group chain.
+    unbounded = offset < 0
+    default_rl = None if unbounded else default_limit - offset
     ctx.cov["support"]["recursion_calibration"] = {"offset": offset, "default_limit": default_limit,
                                                    "frames_below_validate": default_rl, "unbounded": unbounded}
 
@@ -1361,10 +1420,10 @@ def run(ctx):
                 else:
                     sig = {"site": "parse_string", "class": name}
                 ctx.violation("impl_violation", small, expected="a Schema or a SchemaError (no other exception escapes)",
-                              observed="parse_string raised %s" % name, theorem="C41_total / C41_recursion_refuted",
+                              observed="parse_string raised %s" % name, theorem="C41_total",
                               signature=sig,
                               note="the text is a valid schema; _check_group_cycle recurses once per `use` edge and exceeds "
-                                   "the interpreter's recursion limit (%d, %d frames left below _validate)" % (default_limit, default_rl)
+                                   "the interpreter's recursion limit (%d, %s frames left below _validate)" % (default_limit, default_rl)
                               if name == "RecursionError" else "")
         elif cls == 1:
             if len(ints) != 2 or not (1 <= ints[1] <= nl + 1):
@@ -1391,14 +1450,7 @@ def run(ctx):
         ntok = sum(1 for t in TOKEN_RE.findall(text[:20000]) if not t.isspace() and not t.startswith('#'))
         if ntok >= 8:
             nontriv.add(text)
-        model_rl = UNBOUNDED_RL if unbounded else (rl if rl is not None else default_rl)
-        if unbounded and fam == "deep-chain":
-            # the repaired implementation accepts it; the model keeps the original one-frame-per-use-edge algorithm, whose
-            # 10^8 steps on this text are not worth evaluating inside Coq: compared on the implementation side only
-            coq_cases.append(PAD)
-            ctx.cov["support"]["deep_chain"] = "accepted by the implementation (no recursion limit any more); not evaluated in the model"
-        else:
-            coq_cases.append("(%s, %d%%N, %s)" % (lit(text), model_rl, F.zlist(hashed(ints))))
+        coq_cases.append("(%s, %s)" % (lit(text), F.zlist(hashed(ints))))
 
     # ---------------------------------------------------------------- model vs implementation, inside Coq
     order = sorted(range(len(cases)), key=lambda i: -len(cases[i][1]))
